@@ -20,7 +20,19 @@ func main() {
 		}
 		return
 	}
-	needDriver := map[string]bool{"c11": true, "c12": true}
+	if os.Args[1] == "rejectprobe" {
+		hx.RejectProbe(1000)
+		return
+	}
+	if os.Args[1] == "hangprobe" {
+		hx.HangProbe(3000)
+		return
+	}
+	if os.Args[1] == "genprobe" {
+		hx.GenProbe(2000, len(os.Args) > 2 && os.Args[2] == "vm")
+		return
+	}
+	needDriver := map[string]bool{"c11": true, "c12": true, "c17": true}
 	var d *hx.Driver
 	if needDriver[os.Args[1]] {
 		var err error
@@ -37,6 +49,8 @@ func main() {
 		rep = hx.RunC11(d)
 	case "c12":
 		rep = hx.RunC12(d)
+	case "c17":
+		rep = hx.RunC17(d)
 	default:
 		fmt.Fprintln(os.Stderr, "unknown component", os.Args[1])
 		os.Exit(2)
